@@ -4,7 +4,7 @@
    failure, a refused thread start. *)
 From Coq Require Import Lia.
 From Coq Require Import Permutation.
-From Torf Require Import Base Pipeline PipelineProofs FlowProofs ThreadProofs DeadlockProofs ConservationProofs ReaderDoneProofs DrainProofs VerifyTrueProofs VerifyFalseProofs CompleteProofs ExceptionProofs PipeExplore PipeExploreProofs PipeConfigs.
+From Torf Require Import Base Pipeline PipelineProofs FlowProofs ThreadProofs DeadlockProofs ConservationProofs ReaderDoneProofs DrainProofs TerminationProofs VerifyTrueProofs VerifyFalseProofs CompleteProofs ExceptionProofs PipeExplore PipeExploreProofs PipeConfigs.
 Open Scope Z_scope.
 
 (* the callback cancels from the second piece on (3 pieces): under every schedule the call returns
@@ -77,6 +77,26 @@ Theorem C04_no_piece_lost_unbounded : forall c s,
   Permutation (indices s) (map Z.of_nat (seq 0 (Z.to_nat (s_ridx s)))).
 Proof. exact no_piece_lost. Qed.
 Print Assumptions C04_no_piece_lost_unbounded.
+
+(* UNBOUNDED, "always terminates": from every state reachable under any schedule -- any number of hashers and
+   pieces, any callback plan (cancelling, raising), read fault, out-of-memory handling, refused additional hasher,
+   any clock -- some schedule leads to a state in which the call has returned; so under a fair scheduler every
+   call returns.  Proof (proofs/TerminationProofs.v): a measure of the remaining work (items still to read, pieces
+   in the queues and with the hashers, the program counters of reader, hashers, janitor and main) that some
+   enabled step strictly decreases as long as the call has not returned: the unproductive steps -- the idle
+   timeout of the vital hasher, the janitor's timeout and its re-scan while a hasher still runs -- are never the
+   only ones available (a strengthening of deadlock-freedom, using that the vital hasher, once started, is never
+   "new" again and sets the finalize event before it ends).  The second theorem bounds the number of steps of
+   that schedule by the measure of the current state. *)
+Theorem C04_can_always_finish : forall c s,
+  (1 <= cf_hashers c)%nat -> reach c s -> exists s', steps c s s' /\ s_mdone s' = true.
+Proof. exact can_always_finish. Qed.
+Print Assumptions C04_can_always_finish.
+
+Theorem C04_can_finish_within_measure : forall c s,
+  (1 <= cf_hashers c)%nat -> reach c s -> exists s', nsteps c (mu s) s s' /\ s_mdone s' = true.
+Proof. exact can_finish_within_measure. Qed.
+Print Assumptions C04_can_finish_within_measure.
 
 (* UNBOUNDED, "False only for the right reason": a hashing run over readable content returns False only if it was
    told to stop (the stop flag of the reader was set: a callback cancelled) -- never because a schedule, a slow
